@@ -38,6 +38,8 @@ def snapshot(v, memo=None):
         if getattr(v, "owned", False):
             s.owned = True
         return s
+    if isinstance(v, V.BytesV) and v.mutable:
+        return V.BytesV(v.arr, v.length, mutable=True, view=v.view, concrete=v.concrete, fresh=v.fresh)
     if isinstance(v, OptV):
         return OptV(v.is_none, snapshot(v.val, memo))
     if isinstance(v, RecV):
